@@ -211,7 +211,7 @@ theorem reader_not_own {s : St} {i : Nat} (h : Safe s) (ho : (s.snap i).owner = 
 
 /-- every atomic step of the model preserves `Safe` when removeVersion re-checks the refcount -/
 theorem safe_step {cfg : Cfg} {s s' : St} {a : Act} (hr : cfg.recheck = true) (hcl : cfg.cloneLocked = true)
-    (hal : cfg.allocLocked = true) (h : Safe s)
+    (hal : cfg.allocLocked = true) (hfe : cfg.findErrReleases = false) (h : Safe s)
     (hs : step cfg s a = some s') : Safe s' := by
   cases a with
   | acquire => simp only [step] at hs; cases hs; exact safe_acquire none h
@@ -269,11 +269,14 @@ theorem safe_step {cfg : Cfg} {s s' : St} {a : Act} (hr : cfg.recheck = true) (h
     split at hs
     next hc => cases hs; exact safe_cleanup h hc
     next => cases hs
+  | findErrRelease i fs =>
+    simp only [step, hfe, Bool.false_and, Bool.false_eq_true, if_false] at hs
+    cases hs
 
 theorem safe_reachable {cfg : Cfg} {v0 f0 : Nat} {s : St} (hr : cfg.recheck = true) (hcl : cfg.cloneLocked = true)
-    (hal : cfg.allocLocked = true) (h : Reachable cfg v0 f0 s) : Safe s := by
+    (hal : cfg.allocLocked = true) (hfe : cfg.findErrReleases = false) (h : Reachable cfg v0 f0 s) : Safe s := by
   induction h with
   | init => exact safe_init v0 f0
-  | step a _ hs ih => exact safe_step hr hcl hal ih hs
+  | step a _ hs ih => exact safe_step hr hcl hal hfe ih hs
 
 end LinVerif.Lemmas.C02
